@@ -61,6 +61,14 @@ class CallGraph:
             if isinstance(t, ast.Name):
                 out.setdefault(t.id, []).append(v)
             elif isinstance(t, (ast.Tuple, ast.List)):
+                # a, b = x, y  binds element by element (unless it is an exchange of the same names, whose right side means the OLD values)
+                if isinstance(v, (ast.Tuple, ast.List)) and len(v.elts) == len(t.elts) and not any(isinstance(e, ast.Starred) for e in list(t.elts) + list(v.elts)):
+                    tnames = {x.id for e in t.elts for x in ast.walk(e) if isinstance(x, ast.Name)}
+                    vnames = {x.id for e in v.elts for x in ast.walk(e) if isinstance(x, ast.Name)}
+                    if not (tnames & vnames):
+                        for e, ve in zip(t.elts, v.elts):
+                            mark(e, ve)
+                        return
                 for e in t.elts:
                     mark(e, None)
             elif isinstance(t, ast.Starred):
